@@ -12,7 +12,7 @@ for f in mutants/$pat.diff; do
   if [ -n "$MUT_TESTS" ]; then
     if (cd /repo && go build ./... && go test -vet=off -count=1 ./... >/dev/null 2>&1); then tests=green; else tests=RED; fi
   fi
-  out=$(VERIF_REPLAYS_DIR=/verif/.build/mut-replays ./run "$id" ${MUT_TIER:-quick} 2>&1); rc=$?
+  out=$(VERIF_REPLAYS_DIR=/verif/.build/mut-replays VERIF_EVIDENCE_DIR=/verif/.build/mut-evidence ./run "$id" ${MUT_TIER:-quick} 2>&1); rc=$?
   git -C /repo checkout -- . ; git -C /repo clean -fdq -- . 2>/dev/null
   kind=$(echo "$out" | grep -m1 -B1 "^VIOLATION" | head -1 | cut -c1-160)
   echo "$name rc=$rc tests=$tests $(echo "$out" | grep -c '^VIOLATION') viol | $kind"
